@@ -134,7 +134,7 @@ type c36DelayCase struct {
 }
 
 func TestVerifC36(t *testing.T) {
-	rep := vfNewReport("C36", "A: generated delay tables (0-6 entries incl. empty, zero and negative durations), release rates -2..9, idle timeout 0 or 1h, sequences of 5-60 Signal/Release/Reset/Level/GetDelay ops, non-trivial when the level became positive and a Signal or Release was clamped; B: Delay at every table level x context {none, already cancelled, 10ms deadline, 5s deadline}; C: real idle timers (100-160 ms) with re-arming touches, reads before the deadline and the observed reset")
+	rep := vfNewReport("C36", "A: generated delay tables (0-6 entries incl. empty, zero and negative durations), release rates -2..9, idle timeout 0 or 1h, sequences of 5-60 Signal/Release/Reset/Level/GetDelay ops, non-trivial when the level became positive and a Signal or Release was clamped; B: Delay at every table level x context {none, already cancelled, 10ms deadline, 5s deadline, cancelled 10 ms into the delay without / with a far (60 s) deadline}; C: real idle timers (100-160 ms) with re-arming touches, reads before the deadline and the observed reset")
 	defer rep.Write()
 	r := vfNewRng(36)
 	var allOps, allImpl [][]string
@@ -181,10 +181,13 @@ func TestVerifC36(t *testing.T) {
 	tableB := []time.Duration{0, 3 * time.Millisecond, 8 * time.Millisecond, 2 * time.Second, 5 * time.Second}
 	var casesB []c36DelayCase
 	for lvl := range tableB {
-		for _, k := range []string{"none", "cancelled", "short", "long"} {
+		for _, k := range []string{"none", "cancelled", "short", "long", "cancel-midway", "far-deadline-cancel-midway"} {
 			d := tableB[lvl]
 			if d >= time.Second && (k == "none" || k == "long") {
 				continue // would really block for seconds; the timer path is covered by the small entries
+			}
+			if d < time.Second && (k == "cancel-midway" || k == "far-deadline-cancel-midway") {
+				continue // explicit cancellation 10 ms into a multi-second delay only
 			}
 			casesB = append(casesB, c36DelayCase{lvl, k})
 		}
@@ -222,6 +225,21 @@ func TestVerifC36(t *testing.T) {
 				case "long":
 					ctx, cancel = context.WithTimeout(ctx, 5*time.Second)
 					ctxTok, ctxLeft = "5000000000", 5*time.Second
+				case "cancel-midway":
+					// no deadline; the caller gives up (cancel func) 10 ms into the delay
+					ctx, cancel = context.WithCancel(ctx)
+					time.AfterFunc(10*time.Millisecond, cancel)
+					ctxTok, ctxLeft = "10000000", 10*time.Millisecond
+				case "far-deadline-cancel-midway":
+					// a deadline far beyond the delay (request timeout), but the caller goes away
+					// (explicit cancellation) 10 ms into the delay: the context ENDS after 10 ms
+					var c2 context.CancelFunc
+					ctx, c2 = context.WithTimeout(ctx, 60*time.Second)
+					inner, c3 := context.WithCancel(ctx)
+					ctx = inner
+					cancel = func() { c3(); c2() }
+					time.AfterFunc(10*time.Millisecond, c3)
+					ctxTok, ctxLeft = "10000000", 10*time.Millisecond
 				}
 				defer cancel()
 				t0 := time.Now()
